@@ -35,6 +35,9 @@
 #define SP_VCAP 32
 #endif
 #define SP_NF 6
+#ifndef SP_KMAX
+#define SP_KMAX 2        /* sub-forms emit 0..SP_KMAX instructions */
+#endif
 #ifndef SP_MAXSTEP
 #define SP_MAXSTEP 12
 #endif
@@ -102,6 +105,8 @@ void *sp_grow_stub(void *v, int32_t increment, int32_t itemsize) {
 }
 /* janet_equals on the constants this harness uses (immediates, one array): identity */
 int sp_equals_stub(Janet x, Janet y) { return x.type == y.type && x.as.u64 == y.as.u64; }
+/* (set (ds key) v) never resolves a name */
+JanetSlot sp_resolve_unreach_stub(JanetCompiler *c, const uint8_t *sym) { __CPROVER_assert(0, "harness: no symbol is resolved in this unit"); __CPROVER_assume(0); return janetc_cslot(janet_wrap_nil()); }
 void sp_lintf_stub(JanetCompiler *c, JanetCompileLintLevel level, const char *format, ...) {}
 void sp_cerror_stub(JanetCompiler *c, const char *m) { sp_errors++; c->result.status = JANET_COMPILE_ERROR; }
 void sp_error_stub(JanetCompiler *c, const uint8_t *m) { sp_errors++; c->result.status = JANET_COMPILE_ERROR; }
@@ -254,7 +259,7 @@ static void sp_setup(int outer_flags) {
 #ifdef SP_KFIX
         sp_k[f] = SP_KFIX;
 #else
-        sp_k[f] = nd_int(); __CPROVER_assume(sp_k[f] >= 0 && sp_k[f] <= 2);
+        sp_k[f] = nd_int(); __CPROVER_assume(sp_k[f] >= 0 && sp_k[f] <= SP_KMAX);
 #endif
         sp_isconst[f] = nd_int() & 1;
         sp_slot[f] = SP_SLOT0 + f; sp_slotflags[f] = 0; sp_makes_closure[f] = 0; sp_spliced[f] = 0;
@@ -779,7 +784,9 @@ static int sp_event_of(JanetSlot s) { int r = -1; for (int e = 0; e < SP_QE; e++
 #if SP_QQ_TEMPLATE == 0
 static const int sp_qq_template[3] = { QK_ATOM, QK_UNQ, QK_QQ };           /* ~(a ,f2 (quasiquote (unquote a3))) */
 #elif SP_QQ_TEMPLATE == 1
-static const int sp_qq_template[3] = { QK_TUP, QK_UNQ1, QK_UNQ };          /* ~((foo a1) (unquote) ,f3) */
+static const int sp_qq_template[3] = { QK_TUP, QK_UNQ, QK_ATOM };          /* ~((foo a1) ,f2 a3) */
+#elif SP_QQ_TEMPLATE == 3
+static const int sp_qq_template[3] = { QK_UNQ1, QK_ATOM, QK_UNQ };         /* ~((unquote) a2 ,f3) */
 #else
 static const int sp_qq_template[3] = { QK_UNQ, QK_UNQ, QK_ATOM };          /* ~(,f1 ,f2 a3) */
 #endif
@@ -798,10 +805,11 @@ static const int sp_qq_template[3] = { QK_UNQ, QK_UNQ, QK_ATOM };          /* ~(
 #else
 #define QR2(m) ((void)0)
 #endif
-#if SP_QQ_TEMPLATE != 1
 #define QR02(m) REACH(m)
+#if SP_QQ_TEMPLATE == 3
+#define QR3(m) REACH(m)
 #else
-#define QR02(m) ((void)0)
+#define QR3(m) ((void)0)
 #endif
 /* concrete indexing (a symbolic index into the array of tuple structs is mis-resolved by CBMC 6.11) */
 static Janet sp_qel_head(int i) { return i == 0 ? sp_qel[0].data[0] : i == 1 ? sp_qel[1].data[0] : sp_qel[2].data[0]; }
@@ -900,7 +908,7 @@ void h_quasiquote(void) {
         __CPROVER_assert(sp_ev_n[ev] == sp_qel_len(i), "comp.quasiquote: a nested tuple is rebuilt with the same number of elements");
         __CPROVER_assert(sp_is_const(sp_ev_elem[ev][0], sp_qel_head(i)), "comp.quasiquote: a nested tuple is rebuilt with the same head symbol");
         if (kind[i] == QK_TUP) { __CPROVER_assert(sp_is_const(sp_ev_elem[ev][1], sp_form(f)), "comp.quasiquote: nested data is kept"); QR1("quasiquote: nested tuple"); }
-        else if (kind[i] == QK_UNQ1) QR1("quasiquote: unquote without argument is data");
+        else if (kind[i] == QK_UNQ1) QR3("quasiquote: unquote without argument is data");
         else {
             int ev2 = sp_event_of(sp_ev_elem[ev][1]);
             __CPROVER_assert(ev2 >= 0 && ev2 < ev && sp_ev_op[ev2] == JOP_MAKE_TUPLE && sp_ev_n[ev2] == 2 && sp_is_const(sp_ev_elem[ev2][0], sp_symv(sp_sym_unquote)) && sp_is_const(sp_ev_elem[ev2][1], sp_form(f)),
